@@ -486,8 +486,16 @@ def sec_writeback(rec, patches=None):
             rec.fact("writeback/apply/row-i-from-subtomogram-i", bool(ok), key="C03/apply/row-order", detail={"column": col, "task_owners": owners})
 
 
+def sec_batch_binning(rec, patches=None):
+    """after BatchLoader.binning(compute=True) of a batch mixing in-memory and dask tomograms, every molecule still reads the (binned) image of its own tomogram (executed by C15's section)"""
+    from .c15 import sec_region_batch
+
+    for kinds in (("numpy", "dask"), ("dask", "numpy")):
+        sec_region_batch(rec, b=2, compute=True, kinds=kinds, patches=patches)
+
+
 def sections(tier):
-    S = [("single", "checks.c03", "sec_single", {}), ("batch-ops", "checks.c03", "sec_batch_ops", {}), ("group", "checks.c03", "sec_group", {}), ("writeback", "checks.c03", "sec_writeback", {})]
+    S = [("batch-binning-mixed", "checks.c03", "sec_batch_binning", {}), ("single", "checks.c03", "sec_single", {}), ("batch-ops", "checks.c03", "sec_batch_ops", {}), ("group", "checks.c03", "sec_group", {}), ("writeback", "checks.c03", "sec_writeback", {})]
     seqs = [(0, 1, 0, 1), (1, 0), (0, 0, 1), (1, 0, 0), (0, 1, 1, 0)] if quick(tier) else [s for n in (2, 3, 4) for s in itertools.product((0, 1), repeat=n) if len(set(s)) == 2] + [(0, 1, 2, 0), (2, 0, 1, 0), (1, 2, 0, 1)]
     for s in seqs:
         S.append((f"batch-{''.join(map(str, s))}", "checks.c03", "sec_batch", {"ids": s}))
